@@ -1,7 +1,8 @@
 (* GenBuildJudge.v — judgement of one build-farm observation (no proofs).
    spec: the generator either reported an error or produced a gofmt-clean file that builds with
    its package and the compile-time interface assertions — i.e. the observation is not ObsBad.
-   model: [predict] over the tables regenerated from the current tree.                         *)
+   model: [predict] over the tables regenerated from the current tree, and [refs_ok]: every
+   trait type is referenced in the generated file exactly as the model of ExtractTypeRef renders it.                         *)
 From Coq Require Import String List Bool.
 From GT Require Import Base.Verdict GenBuildModel.
 Import ListNotations.
@@ -14,7 +15,8 @@ Definition model_eq (T : tmpl_tables) (ks : list bkind) (r : rexpr) (c : gb_case
   | PAny, _ => true
   | PBuilt, ObsBuilt | PErr, ObsErr | PBad, ObsBad => true
   | _, _ => false
-  end.
+  end
+  && refs_ok ks r c.
 
 Definition gb_judge (T : tmpl_tables) (ks : list bkind) (r : rexpr) (c : gb_case) : nat :=
   verdict (spec_ok c) (model_eq T ks r c).
